@@ -217,107 +217,7 @@ def _eval_upd(terms, n, ts, state):
 
 
 def make_probe_classes():
-    from vivarium.core.process import Process, Step
-
-    class ProbeMixin:
-        def _init_probe(self):
-            self.spec = self.parameters['spec']
-            self.ctx = self.parameters['ctx']
-            self.vars = self.parameters['vars']
-            self.pname = self.spec['pid'][0]
-            self.k_ts = 0
-            self.k_cond = 0
-            self.n_inv = 0
-
-        def ports_schema(self):
-            ctx = self.parameters['ctx']
-            init = dict(self.parameters['init'])
-            noemit = self.parameters.get('noemit') or []
-            schema = {}
-            for v in self.parameters['vars']:
-                cfg = {'_default': init[v], '_emit': v not in noemit}
-                if v.startswith('tok_'):
-                    cfg['_updater'] = ctx.token_updaters[v] if ctx is not None else 'accumulate'
-                else:
-                    cfg['_updater'] = 'accumulate'
-                schema[v] = cfg
-            return {'vars': schema}
-
-        def _state(self, states):
-            return dict(states['vars'])
-
-    class ProbeProcess(ProbeMixin, Process):
-        defaults = {'spec': None, 'ctx': None, 'vars': [], 'init': {}, 'noemit': []}
-
-        def __init__(self, parameters=None):
-            super().__init__(parameters)
-            self._init_probe()
-
-        def calculate_timestep(self, states):
-            st = self._state(states)
-            k = self.k_ts
-            self.k_ts += 1
-            ts = _eval_ts(self.spec['ts'], k, st)
-            if self.ctx is not None:
-                self.ctx.log.append({'e': 'askTs', 'p': self.spec['pid'], 'k': k, 'gt': self.ctx.now()})
-                r = ts * self.ctx.unit
-                return round(r, self.ctx.prec) if self.ctx.prec is not None else r
-            return ts * self.parameters['unit']
-
-        def update_condition(self, timestep, states):
-            st = self._state(states)
-            k = self.k_cond
-            self.k_cond += 1
-            ans = bool(_eval_cond(self.spec['cond'], k, st))
-            if self.ctx is not None:
-                self.ctx.log.append({'e': 'askCond', 'p': self.spec['pid'], 'k': k,
-                                     'ts': self.ctx.tick_len(timestep), 'gt': self.ctx.now(), 'ans': ans})
-            return ans
-
-        def next_update(self, timestep, states):
-            st = self._state(states)
-            n = self.n_inv
-            self.n_inv += 1
-            unit = self.ctx.unit if self.ctx is not None else self.parameters['unit']
-            ts = round(timestep / unit)
-            u = _eval_upd(self.spec['upd'], n, ts, st)
-            if self.ctx is not None:
-                self.ctx.log.append({'e': 'invoke', 'p': self.spec['pid'], 'n': n, 'gt': self.ctx.now(),
-                                     'ts': self.ctx.tick_len(timestep), 'start': self.ctx.front_time(self.spec['pid']),
-                                     'view': sorted([k_, v] for k_, v in st.items()),
-                                     'u': sorted([k_, v] for k_, v in u.items())})
-            return {'vars': u}
-
-    class ProbeStep(ProbeMixin, Step):
-        defaults = {'spec': None, 'ctx': None, 'vars': [], 'init': {}, 'noemit': []}
-
-        def __init__(self, parameters=None):
-            super().__init__(parameters)
-            self._init_probe()
-
-        def update_condition(self, timestep, states):
-            st = self._state(states)
-            k = self.k_cond
-            ans = bool(_eval_cond(self.spec['cond'], k, st))
-            self.k_cond += 1
-            self.last_k = k
-            if self.ctx is not None:
-                self.ctx.log.append({'e': 'stepCond', 'p': self.spec['pid'], 'k': k, 't': self.ctx.now(),
-                                     'ts': self.ctx.tick_len(timestep), 'ans': ans,
-                                     'view': sorted([k_, v] for k_, v in st.items())})
-            return ans
-
-        def next_update(self, timestep, states):
-            st = self._state(states)
-            k = self.last_k       # a step's oracle is indexed by its poll count
-            u = _eval_upd(self.spec['upd'], k, 0, st)
-            if self.ctx is not None:
-                self.ctx.log.append({'e': 'stepInvoke', 'p': self.spec['pid'], 'k': k, 't': self.ctx.now(),
-                                     'ts': self.ctx.tick_len(timestep),
-                                     'view': sorted([k_, v] for k_, v in st.items()),
-                                     'u': sorted([k_, v] for k_, v in u.items())})
-            return {'vars': u}
-
+    from harness.probes import ProbeProcess, ProbeStep
     return ProbeProcess, ProbeStep
 
 
@@ -367,9 +267,11 @@ def build_engine(scn, ctx, parallel_ok=False, entry='parts'):
     vars_ = [v for v, _ in scn['store']]
     init = {v: x for v, x in scn['store']}
 
-    # token updaters log applications in the parent process
+    # token updaters log applications in the parent process (not when workers are involved:
+    # functions in a schema cannot travel through the pipe)
     ctx.token_updaters = {}
-    for p in scn['procs'] + scn['steps']:
+    any_parallel = parallel_ok and any(p.get('parallel') for p in scn['procs'] + scn['steps'])
+    for p in ([] if any_parallel else scn['procs'] + scn['steps']):
         name = p['pid'][0]
         is_step = p in scn['steps']
 
@@ -390,6 +292,7 @@ def build_engine(scn, ctx, parallel_ok=False, entry='parts'):
             params['_parallel'] = True
             params['ctx'] = None
             params['unit'] = scn['unit']
+            params['prec'] = scn['prec']
         processes[name] = ProbeProcess(params)
         topology[name] = {'vars': ('vars',)}
     steps = {}
@@ -397,6 +300,11 @@ def build_engine(scn, ctx, parallel_ok=False, entry='parts'):
     for p, sd in zip(scn['steps'], scn['stepDeps']):
         name = p['pid'][0]
         params = {'spec': p, 'ctx': ctx, 'vars': vars_, 'init': init, 'noemit': scn.get('noemit', [])}
+        if parallel_ok and p.get('parallel'):
+            params['_parallel'] = True
+            params['ctx'] = None
+            params['unit'] = scn['unit']
+            params['prec'] = scn['prec']
         steps[name] = ProbeStep(params)
         topology[name] = {'vars': ('vars',)}
         if sd['deps'] is not None:
@@ -416,6 +324,10 @@ def run_engine(scn, parallel_ok=False):
     ctx = Ctx(scn)
     obs = {'log': ctx.log}
     eng = None
+    baseline_children = 0
+    if parallel_ok:
+        import multiprocessing
+        baseline_children = len(multiprocessing.active_children())
     try:
         eng = build_engine(scn, ctx, parallel_ok)
         unit = scn['unit']
@@ -453,6 +365,18 @@ def run_engine(scn, parallel_ok=False):
                 eng.end()
             except Exception as e:  # noqa
                 obs['end_raised'] = type(e).__name__
+            if parallel_ok:
+                # Engine.end() must have stopped and reaped every worker, while the engine is alive
+                import multiprocessing
+                kids = multiprocessing.active_children()
+                obs['alive_after_end'] = max(0, len(kids) - baseline_children)
+                if obs['alive_after_end']:
+                    for k in kids:      # do not let a leaked worker hang the check itself
+                        try:
+                            k.terminate()
+                            k.join(timeout=2.0)
+                        except Exception:  # noqa
+                            pass
     obs['bad_times'] = ctx.bad_times[:5]
     return obs
 
